@@ -71,6 +71,8 @@ class C06(SCheck):
         return {"setup": ops, "steps": [{"inv": inv}], "kernel": kernel, "max_events": 400000}
 
     def gen_plans(self, r, case, k):
+        if case.get("race_shape"):
+            k = max(k, 16)
         plans = []
         for j in range(k):
             drv = "parfile" if j % 2 == 0 else "parblock"
